@@ -1,9 +1,9 @@
 (* C11 — flow-control limits are never exceeded and violations are detected.
    Only the property theorems live here; each is closed by a lemma of Proofs/Flow.v or
    Proofs/StreamCtl.v and its assumptions are printed for the audit.  `as_is` is the code as it
-   stands, `fixed` the code after the `fix:` commits for F12, F13 and F26. *)
-From Coq Require Import List NArith ZArith Bool.
-From GQ Require Import Model.StreamCtl Proofs.Flow Proofs.StreamCtl.
+   stands, `fixed` the code after the `fix:` commits for F12, F13, F26, F27 and F33. *)
+From Coq Require Import List NArith ZArith Bool Lia.
+From GQ Require Import Model.StreamCtl Proofs.Flow Proofs.StreamCtl Proofs.StreamLift.
 Import ListNotations.
 Local Open Scope N_scope.
 
@@ -103,6 +103,95 @@ Theorem c11_send_limit_monotone : forall st o st',
   sop_ok o -> s_step st o = Some st' -> max_data (ss_c st) <= max_data (ss_c st').
 Proof. exact p_c11_send_limit_monotone. Qed.
 
+
+(* ---- the composed model: one packet-loading step, and every whole-DataStreams op list *)
+(* try_load_data_into_once: no arithmetic panic, max_data untouched, sent_data raised by exactly
+   the fresh bytes of the frame emitted (0 for a retransmission, 0 if nothing goes out), still
+   within max_data, and the frame ends within the window its stream had *)
+Theorem c11_load_once_charge : forall v s cap,
+  Dinv s ->
+  let '(r, s', _) := load_once v s cap in
+  Dinv s' /\ max_data (d_fs s') = max_data (d_fs s)
+  /\ (forall k, wmap (d_outs s') k = wmap (d_outs s) k)
+  /\ d_l s' = d_l s /\ d_r s' = d_r s /\ d_lq s' = d_lq s /\ d_role s' = d_role s
+  /\ match r with
+     | None => sent_data (d_fs s') = sent_data (d_fs s)
+     | Some (s2, _, fs) =>
+       s2 = s' /\
+       exists (sid off len : N) (fin fresh : bool),
+         fs = [FStream sid off len fin]
+         /\ sent_data (d_fs s') = sent_data (d_fs s) + (if fresh then len else 0)
+         /\ (exists w, wmap (d_outs s) sid = Some w /\ off + len <= w)
+     end.
+Proof. exact p_c11_load_once_charge. Qed.
+
+(* the invariant (every sender within its window, sent_data <= max_data) holds after every
+   whole-DataStreams op list whose handshake is not a 0-RTT rejection (op_ok) *)
+Theorem c11_ds_invariant : forall v ops s,
+  Dinv s -> all_ok v s ops -> Dinv (ds_exec v s ops).
+Proof. exact p_c11_ds_invariant. Qed.
+
+Theorem c11_ds_invariant_init : forall r c loc rem mem, Dinv (ds_init r c loc rem mem).
+Proof. exact Dinv_init. Qed.
+
+(* c11_stream_limit and c11_conn_limit at every reachable state of the composed model *)
+Theorem c11_limits_ds : forall v ops s0 cap fuel,
+  Dinv s0 -> all_ok v s0 ops ->
+  let s := ds_exec v s0 ops in
+  (exists c q b, sc_credit (d_fs s) cap = Some (c, q, b))
+  /\ let '(s', _, sf, _, _) := load_loop v fuel s cap [] [] false in
+     Forall (frame_in_window (d_outs s)) sf
+     /\ sent_data (d_fs s) <= sent_data (d_fs s') <= sent_data (d_fs s) + frames_len sf
+     /\ sent_data (d_fs s') <= max_data (d_fs s') /\ max_data (d_fs s') = max_data (d_fs s).
+Proof. exact p_c11_limits_ds. Qed.
+
+(* no operation other than LOAD charges the connection-level budget *)
+Theorem c11_only_load_charges : forall v s o,
+  (forall cap, o <> OLoad cap) -> sent_data (d_fs (fst (ds_step v s o))) = sent_data (d_fs s).
+Proof. exact ds_step_sent. Qed.
+
+
+(* ---- F33 repaired: a locally opened stream sends only while its index is below the peer's
+   current stream limit (after a rejected 0-RTT attempt the limit may be below what was opened) *)
+Theorem c11_load_within_stream_limit : forall v s cap,
+  fix33 v = true ->
+  let '(r, _, _) := load_once v s cap in
+  match r with
+  | Some (_, _, fs) =>
+    forall sid off len fin, In (FStream sid off len fin) fs -> sid_role sid = d_role s ->
+                            sid_idx sid < pget (l_max (d_l s)) (sid_dir sid)
+  | None => True
+  end.
+Proof. exact p_c11_load_within_stream_limit. Qed.
+
+(* as it was: remembered limit 5, three bidi streams opened, rejected handshake with limit 1:
+   streams 8 and 4 (indices 2, 1) still send; repaired, only stream 0 does *)
+Example c11_f33_replay :
+  let cfg := [0; 1; 0; 3; 3; 100000; 100; 100; 100; 1; 1; 100000; 900; 800; 700; 5; 5; 100000; 900; 800; 700]%Z in
+  let ops := [(1, [0%Z]); (1, [0%Z]); (1, [0%Z]); (2, [0; 50]%Z); (2, [4; 50]%Z); (2, [8; 50]%Z); (0, [1%Z]); (6, [1200%Z])] in
+  nth 7 (run_streams cfg ops) [] = [1; 0; 1041; 3; 1; 8; 0; 50; 0; 1; 4; 0; 50; 0; 1; 0; 0; 50; 0]%Z
+  /\ nth 7 (run_streams_fixed cfg ops) [] = [1; 0; 1147; 1; 1; 0; 0; 50; 0]%Z.
+Proof. vm_compute. split; reflexivity. Qed.
+
+(* ---- F34 (open): c11_conn_limit needs its guard.  After a 0-RTT rejection sent_data is kept
+   while max_data restarts from the new value: `max_data - sent_data` underflows (debug panic,
+   release wrap = unlimited credit) *)
+Theorem c11_conn_limit_rejected_refuted :
+  exists ops m, ~ Forall sop_ok ops /\ s_exec (s_init m) ops = None
+                /\ forall i n, ~ In (SPost i n) ops \/ n <= 800.
+Proof.
+  exists [SCredit 800; SPost 0 800; SDrop 0; SRevise true 500; SCredit 10], 1000.
+  split; [intro F; do 3 (apply Forall_inv_tail in F); apply Forall_inv in F; exact F|].
+  split; [vm_compute; reflexivity|].
+  intros i n. destruct (N.leb_spec n 800); [right; assumption|left].
+  intros [E|[E|[E|[E|[E|[]]]]]]; inversion E; subst; lia.
+Qed.
+
+Example c11_f34_replay :
+  run_flow [1000; 0]%Z [(0, [800%Z]); (1, [0; 800]%Z); (2, [0%Z]); (5, [1; 500]%Z); (0, [10%Z])]
+  = [[1; 800; 0; 0]; [1; 0]; [1]; [1]; [-3]]%Z.
+Proof. vm_compute. reflexivity. Qed.
+
 (* ---- receive side: detection *)
 Theorem c11_recv_detects : forall r off len fin final,
   rc_phase r = PRecv ->
@@ -201,3 +290,12 @@ Print Assumptions c11_advertised_monotone_frame.
 Print Assumptions c11_advertised_monotone_stream.
 Print Assumptions c11_recv_no_panic.
 Print Assumptions c11_nonvacuous.
+Print Assumptions c11_load_once_charge.
+Print Assumptions c11_ds_invariant.
+Print Assumptions c11_ds_invariant_init.
+Print Assumptions c11_limits_ds.
+Print Assumptions c11_only_load_charges.
+Print Assumptions c11_load_within_stream_limit.
+Print Assumptions c11_f33_replay.
+Print Assumptions c11_conn_limit_rejected_refuted.
+Print Assumptions c11_f34_replay.
